@@ -217,3 +217,113 @@ func HarnessC05_DupKeys() {
 	}
 	vReach("dupkeys")
 }
+
+// leaf builds a scalar value with its model.
+func c05Leaf() (Amf0, *refVal) {
+	switch vChoice(3) {
+	case 0:
+		bits := vU64()
+		return NewNumber(math.Float64frombits(bits)), &refVal{kind: 0, num: bits}
+	case 1:
+		b := vBool()
+		return NewBoolean(b), &refVal{kind: 1, b: b, tb: 1}
+	default:
+		s := vStr(vChoice(2))
+		return NewString(s), &refVal{kind: 2, s: s}
+	}
+}
+
+// HarnessC05_History: the round trip holds along a history, not only for a fresh value:
+// a container is marshalled, the bytes are decoded, the decoded value is extended through Set,
+// marshalled and decoded again; meanwhile another value is marshalled, and the bytes obtained
+// earlier still decode to the value they were made from.
+func HarnessC05_History() {
+	kind := []uint8{3, 8, 10}[vChoice(3)]
+	var a Amf0
+	var set func(string, Amf0)
+	mk := func() (Amf0, func(string, Amf0)) {
+		switch kind {
+		case 3:
+			o := NewObject()
+			return o, func(k string, v Amf0) { o.Set(k, v) }
+		case 8:
+			o := NewEcmaArray()
+			return o, func(k string, v Amf0) { o.Set(k, v) }
+		default:
+			o := NewStrictArray()
+			return o, func(k string, v Amf0) { o.Set(k, v) }
+		}
+	}
+	a, set = mk()
+	r := &refVal{kind: kind}
+	n := vChoice(3)
+	keys := []string{"a", "b", "c", "d"}
+	for i := 0; i < n; i++ {
+		v, m := c05Leaf()
+		set(keys[i], v)
+		r.keys, r.vals = append(r.keys, keys[i]), append(r.vals, m)
+	}
+	d1, err := a.MarshalBinary()
+	vAssert(err == nil, "marshal succeeds")
+	if err != nil {
+		return
+	}
+	// another value is marshalled while the caller still holds d1
+	other, _ := mk()
+	if ov, ok := other.(interface{ Set(string, Amf0) *objectBase }); ok {
+		ov.Set("zz", NewString("other"))
+	}
+	d2, err := other.MarshalBinary()
+	vAssert(err == nil && len(d2) == other.Size(), "marshal of a second value yields Size() bytes")
+	// d1 still decodes to the first value
+	b, err := Discovery(d1)
+	vAssert(err == nil, "Discovery accepts the bytes marshalled earlier")
+	if err != nil {
+		return
+	}
+	err = b.UnmarshalBinary(d1)
+	vAssert(err == nil, "the bytes marshalled earlier still decode")
+	if err != nil {
+		return
+	}
+	vAssert(matches(b, r, true), "the bytes marshalled earlier still decode to the value they were made from")
+	vAssert(b.Size() == len(d1), "Size() of the decoded value equals the bytes consumed")
+	// extend the decoded value and go round again
+	var bset func(string, Amf0)
+	switch x := b.(type) {
+	case *Object:
+		bset = func(k string, v Amf0) { x.Set(k, v) }
+	case *EcmaArray:
+		bset = func(k string, v Amf0) { x.Set(k, v) }
+	case *StrictArray:
+		bset = func(k string, v Amf0) { x.Set(k, v) }
+	default:
+		vAssert(false, "decoded value has the container type")
+		return
+	}
+	extra := 1 + vChoice(2)
+	for i := 0; i < extra; i++ {
+		v, m := c05Leaf()
+		bset(keys[n+i], v)
+		r.keys, r.vals = append(r.keys, keys[n+i]), append(r.vals, m)
+	}
+	d3, err := b.MarshalBinary()
+	vAssert(err == nil, "marshal of the extended value succeeds")
+	if err != nil {
+		return
+	}
+	vAssert(len(d3) == b.Size(), "marshal of the extended value yields exactly Size() bytes")
+	c, err := Discovery(d3)
+	vAssert(err == nil, "Discovery accepts the extended value")
+	if err != nil {
+		return
+	}
+	err = c.UnmarshalBinary(d3)
+	vAssert(err == nil, "the extended value decodes")
+	if err != nil {
+		return
+	}
+	vAssert(matches(c, r, true), "unmarshal(marshal(extended value)) equals the extended value")
+	vAssert(c.Size() == len(d3), "Size() of the decoded extended value equals the bytes consumed")
+	vReach("history")
+}
